@@ -77,6 +77,8 @@ func extraSuite(name string, g *gen, e *emitter, n int) bool {
 		suiteTreeX(e, n)
 	case "ip6x":
 		suiteIP6X(e, n)
+	case "historyx":
+		suiteHistoryX(e, n)
 	case "validatex":
 		suiteValidateX(e, n)
 	case "servex":
